@@ -215,3 +215,153 @@ INFO = dict(
     outside=["operands outside the catalogue", "nesting deeper than two", "strings longer than 3"],
     assumptions=["weights >= 0", "A(eps) < 1 and epsilon-cycle pivots > 0"],
 )
+
+
+# ---- support of nested rational expressions for ALL strings up to L (symbolic string) -------------------
+def _atom(name, R):
+    from genlm.grammar.wfsa.base import WFSA
+
+    if name in ("a", "b", "c"):
+        return WFSA.lift(name, R.one, R=R)
+    if name == "ab":
+        return WFSA.from_string("ab", R)
+    if name == "one":
+        return WFSA.lift("a", R.one, R=R).one
+    if name == "zero":
+        return WFSA.lift("a", R.one, R=R).zero
+    if name == "a|ab":
+        return WFSA.from_strings(["a", "ab"], R)
+    raise KeyError(name)
+
+
+def _atom_re(name):
+    import z3
+
+    if name in ("a", "b", "c"):
+        return z3.Re(name)
+    if name == "ab":
+        return z3.Re("ab")
+    if name == "one":
+        return z3.Re("")
+    if name == "zero":
+        return z3.Empty(z3.ReSort(z3.StringSort()))
+    if name == "a|ab":
+        return z3.Union(z3.Re("a"), z3.Re("ab"))
+    raise KeyError(name)
+
+
+def _build_x(e, R):
+    if isinstance(e, str):
+        return _atom(e, R)
+    op = e[0]
+    if op == "add":
+        return _build_x(e[1], R) + _build_x(e[2], R)
+    if op == "mul":
+        return _build_x(e[1], R) * _build_x(e[2], R)
+    if op == "star":
+        return _build_x(e[1], R).star()
+    if op == "plus":
+        return _build_x(e[1], R).kleene_plus()
+    if op == "reverse":
+        return _build_x(e[1], R).reverse
+    if op == "renumber":
+        return _build_x(e[1], R).renumber
+    raise KeyError(op)
+
+
+def _re_x(e, rev=False):
+    import z3
+
+    if isinstance(e, str):
+        if rev and e == "ab":
+            return z3.Re("ba")
+        if rev and e == "a|ab":
+            return z3.Union(z3.Re("a"), z3.Re("ba"))
+        return _atom_re(e)
+    op = e[0]
+    if op == "add":
+        return z3.Union(_re_x(e[1], rev), _re_x(e[2], rev))
+    if op == "mul":
+        return z3.Concat(_re_x(e[2], rev), _re_x(e[1], rev)) if rev else z3.Concat(_re_x(e[1], rev), _re_x(e[2], rev))
+    if op == "star":
+        return z3.Star(_re_x(e[1], rev))
+    if op == "plus":
+        return z3.Plus(_re_x(e[1], rev))
+    if op == "reverse":
+        return _re_x(e[1], not rev)
+    if op == "renumber":
+        return _re_x(e[1], rev)
+    raise KeyError(op)
+
+
+@case("C12", "support", domain="Raw")
+def support(ctx):
+    """Which strings get non-zero weight, for ALL strings up to L at once: the automaton built by the real
+    operations (Boolean semiring: no cancellation) is unrolled for a z3 string and compared with the z3
+    regular expression of the same expression tree."""
+    import z3
+
+    from genlm.grammar.semiring import Boolean
+
+    from .. import strenc as SE
+    from .c17 import _nfa_tables
+
+    P = ctx.P
+    e = P["expr"]
+    L = P["L"]
+    tag = _show(e)
+    ok, m = ctx.call(f"build {tag}", _build_x, e, Boolean, sig=f"support:{tag}:construct")
+    if not ok:
+        return
+    label = f"support of {tag} = regular expression (all strings over a,b,c up to {L})"
+    if not ctx.symbolic and "s" in ctx.D.values:
+        import re as _re
+
+        s = ctx.D.values["s"]
+        w = m(s)
+        sol = z3.Solver()
+        sol.add(z3.InRe(z3.StringVal(s), _re_x(e)))
+        want = sol.check() == z3.sat
+        ctx.check(label, (w == Boolean.one) == want, detail=f"string {s!r}: automaton weight {w}, expression language membership {want}", sig=f"support:{tag}:{s!r}")
+        return
+    if not ctx.symbolic:
+        return
+    arcs = [(i, a, j) for i, a, j, w in m.arcs() if w != Boolean.zero]
+    inits = [q for q, w in m.start.items() if w != Boolean.zero]
+    finals = [q for q, w in m.stop.items() if w != Boolean.zero]
+    chars_of, I, F = _nfa_tables(arcs, inits, finals)
+    # final states reachable by epsilon from an accepting position are handled by closing targets; close finals backwards too
+    s = z3.String("s")
+    acc = SE.unroll_nfa(s, L, None, I, F, chars_of)
+    ref = _re_x(e)
+    f = z3.And(z3.Length(s) <= L, z3.InRe(s, z3.Star(SE.charset_re("abc"))), acc != z3.InRe(s, ref))
+    if P.get("canary"):
+        f = z3.And(z3.Length(s) <= L, z3.InRe(s, z3.Star(SE.charset_re("abc"))), acc != z3.InRe(s, z3.Concat(ref, z3.Re("a"))))
+    ctx.unsat(label, f, decode=lambda mdl: {"s": SE.z3_str(mdl, s)}, sig=f"support:{tag}", vars=[s])
+
+
+SUPPORT_EXPRS = [
+    ["star", ["add", "a", "ab"]], ["mul", ["star", "a"], ["star", "b"]], ["plus", ["mul", "a", ["star", "b"]]], ["reverse", ["mul", "ab", ["star", "c"]]],
+    ["star", ["star", "a"]], ["add", ["mul", "one", "a"], ["mul", "zero", "b"]], ["mul", ["add", "one", "a"], ["add", "one", "b"]],
+    ["star", ["mul", ["add", "a", "one"], "b"]], ["reverse", ["star", ["mul", "a", "a|ab"]]], ["renumber", ["plus", ["add", "ab", ["reverse", "ab"]]]],
+    ["star", ["add", ["mul", "a", "b"], ["mul", "b", ["star", "c"]]]], ["mul", ["mul", ["star", "one"], "a"], ["plus", "one"]],
+    ["star", "zero"], ["plus", "zero"], ["mul", "a|ab", "a|ab"], ["star", ["reverse", "a|ab"]],
+]
+
+_jobs0 = jobs
+
+
+def jobs(tier, seed):  # noqa: F811
+    out = _jobs0(tier, seed)
+    L = 7 if tier == "quick" else 9
+    for e in SUPPORT_EXPRS:
+        out.append(dict(case="support", params=dict(expr=e, L=L), hashseed=0, timeout=900))
+    out.append(dict(case="support", params=dict(expr=["star", "a"], L=4, canary=True), hashseed=0))
+    return out
+
+
+INFO["level_text"] += (" Additionally, for a catalogue of nested expressions over atoms (lift, from_string, from_strings, one, zero) the SUPPORT of the "
+                       "automaton built by the real operations (Boolean semiring) is compared with the z3 regular expression of the same expression for ALL strings "
+                       "up to L at once (symbolic string).")
+INFO["bounds"]["quick"]["support"] = f"{len(SUPPORT_EXPRS)} expressions, all strings over a,b,c up to 7"
+INFO["bounds"]["thorough"]["support"] = f"{len(SUPPORT_EXPRS)} expressions, all strings up to 9"
